@@ -8,7 +8,7 @@ N_SEARCH = {"quick": 1, "thorough": 2}
 SHARD = 375
 RULE = ("generated data files (one zone with one located A record per location and name; 16 names with an exact '8' map each "
         "over the subnet shapes none / only ::/0 / only 0.0.0.0/0 / both / nested, adjacent and split IPv4 / nested and adjacent IPv6 / "
-        "mixed / halves / random laminar sets; wildcard '8' and 'M' maps, an exact map beating the wildcard, an '8' map without subnets, "
+        "mixed / halves / IPv6 subnets over the v4-mapped block (::/1, ::ffc0:0:0/90: finding F20 on RocksDB) / random laminar sets; wildcard '8' and 'M' maps, an exact map beating the wildcard, an '8' map without subnets, "
         "a name without '8' map, without any map, with '8' map only, maps for a name outside the zone; four 'M' map variants incl. single "
         "default routes) compiled by the real compilers to CDB, RocksDB v1 keys and RocksDB v2 keys; per backend a handler without and "
         "one with response cache; queries built as wire bytes (no OPT, OPT without ECS, ECS family 1 / 2 / 0, family 2 with v4-mapped "
@@ -20,7 +20,9 @@ RULE = ("generated data files (one zone with one located A record per location a
         "shape) with an ECS option in the query")
 TRUSTED_BASE = [
     "GetLocationByMap = longest-prefix match over the declared subnets and FindMap = exact-then-nearest-wildcard enter the C10 theorems "
-    "as Section hypotheses (they are C03's theorems); the correspondence run checks them end to end on all three backends",
+    "as hypotheses (they are C03's theorems); model_ok takes the driver's answers as observed (Reader.EcsLocation / ResolverLocation on the same "
+    "backend) and checks location.go + handler.go on top of them; spec_ok checks scope and deciding location end to end against an "
+    "independent Go longest-prefix oracle, which model_ok also compares with the Coq function lpm",
     "miekg/dns Msg.Pack/Unpack, OPT handling, Msg.Truncate (keeps the OPT record) and coredns request.Scrub are trusted; "
     "EDNS0_SUBNET.unpack/pack, edns.Version, request.SizeAndDo and supportedOptions are modelled by hand and exercised by the run",
     "the answer sections, rcodes other than BADVERS/REFUSED/SERVFAIL and the cache content enter the model as an environment (any)",
